@@ -17,7 +17,7 @@ from ..core import Ctx, Violation, hyp_run, shard_run
 PID = "C12"
 LEVEL = "exploration"
 EXHAUSTIVE = False
-RULE = ("histories of add_verified_peer / discover_address / discover_services / remove_peer / remove_by_address / "
+RULE = ("histories of add_verified_peer / discover_address / discover_services / remove_peer (with the stored object or with another Peer instance of the same key) / remove_by_address / "
         "query ops / snapshot over 3 peers, 7 addresses (3 IPv4, 2 IPv6, 2 plain tuples), 2 services, cache sizes from "
         "{1,2,500}, blacklists fixed at start: all words to depth 5 (quick) or 6 (thorough) over a 14-letter alphabet "
         "x 2 cache configurations, plus Hypothesis-drawn histories up to 200 ops. Non-trivial = a query op precedes "
@@ -224,8 +224,13 @@ class Run:
             self.net.discover_services(self.subject(p, []), [SERVICES[s] for s in ss])
             self.model.advertise(p, ss)
         elif kind == "remove_peer":
-            _, p = op
-            subj = self.subject(p, [])
+            p = op[1]
+            # callers may pass the graph's own object, or any other Peer instance of the same key (peers are equal by
+            # public key) - with no address or with a different one
+            if len(op) > 2 and op[2] is not None:
+                subj = mk_peer(p, list(op[2]))
+            else:
+                subj = self.subject(p, [])
             addrs = [self.aidx(a) for a in subj.addresses.values()]
             self.net.remove_peer(subj)
             self.model.remove_peer(p, [a for a in addrs if a >= 0])
@@ -474,7 +479,7 @@ ALPHABET = [
     ["add", 0, [0]], ["add", 1, [1]], ["add", 0, [2]], ["add", 1, [0, 3]],
     ["discover", 0, [0], 1, 0, 0], ["discover", 1, [1], 2, None, 1],
     ["services", 0, [0]], ["services", 1, [0]],
-    ["remove_peer", 0], ["remove_peer", 1], ["remove_addr", 0], ["remove_addr", 1],
+    ["remove_peer", 0], ["remove_peer", 1, []], ["remove_addr", 0], ["remove_addr", 1],
     ["observe", 0], ["observe", 1],
 ]
 EX_CONFIGS = [
@@ -521,6 +526,7 @@ def _strategies():
         st.tuples(st.just("discover"), peer, addrs1, addr, st.one_of(st.none(), svc), st.integers(0, 1)).map(list),
         st.tuples(st.just("services"), peer, st.lists(svc, min_size=1, max_size=2, unique=True)).map(list),
         st.tuples(st.just("remove_peer"), peer).map(list),
+        st.tuples(st.just("remove_peer"), peer, addrs).map(list),
         st.tuples(st.just("remove_addr"), addr).map(list),
         st.tuples(st.just("observe"), st.integers(0, 2)).map(list),
         q, q,
